@@ -283,13 +283,18 @@ def run(ctx):
             raise core.MachineryError('Poly design model failed:\n' + r.out[-3000:])
         sel = list(data['scalar'])
         arr = list(data['array'])
+        longs = list(data['long'])
         ctx.coverage['tlc_scalar_cases'] = len(sel)
         ctx.coverage['tlc_array_cases'] = len(arr)
+        ctx.coverage['tlc_long_array_cases'] = len(longs)
         rnd.shuffle(arr)
         if ctx.quick:
             arr = arr[:2500]
         cases = []
-        for i, cs in enumerate(sel + arr):
+        rnd.shuffle(longs)
+        if ctx.quick:
+            longs = longs[:500]
+        for i, cs in enumerate(sel + arr + longs):
             for bset in ((0, 1) if (len(cs['ps']) == 1 or not ctx.quick) else (i % 2,)):
                 cases.append({'kind': 'select', 'f': cs['f'], 'segs': cs['segs'], 'ps': cs['ps'],
                               'acc': cs['acc'], 'bset': bset, 'cseed': rnd.randrange(1 << 30)})
